@@ -9,18 +9,23 @@ Open Scope Z_scope.
 Definition healthy (w : bw) : Prop :=
   bw_budget w < 0 /\ bw_err w = false /\ 0 < bw_size w /\ blen (bw_buf w) <= bw_size w.
 
+Ltac fin := repeat split; try assumption; try reflexivity; try (change (blen []) with 0 in *; lia); try lia.
+
 Lemma beq_nil_false (b : bytes) : b <> [] -> beq b [] = false.
 Proof. destruct b; [congruence|reflexivity]. Qed.
+
+Lemma bdrop_all (x : bytes) : bdrop (blen x) x = [].
+Proof. unfold bdrop, blen. rewrite Nat2Z.id. apply skipn_all. Qed.
 
 Lemma flush_healthy w : healthy w ->
   exists w', bw_flush w = (w', true) /\ healthy w' /\ bw_wire w' = bw_wire w /\ bw_buf w' = [] /\ bw_size w' = bw_size w.
 Proof.
   intros (Hb & He & Hs & Hl). unfold bw_flush. rewrite He.
   destruct (bw_buf w) as [|c buf] eqn:Eb.
-  - exists w. unfold healthy. rewrite He, Eb. repeat split; try assumption. change (blen []) with 0. lia.
+  - exists w. unfold healthy. rewrite He, Eb. fin.
   - unfold tgt_write. destruct (Z.ltb_spec (bw_budget w) 0); [|lia]. cbn [fst snd].
     eexists. split; [reflexivity|]. unfold healthy, bw_wire. cbn [bw_budget bw_err bw_size bw_buf bw_out].
-    rewrite Eb. repeat split; try assumption; try (change (blen []) with 0; lia). now rewrite app_nil_r.
+    rewrite Eb. fin. now rewrite app_nil_r.
 Qed.
 
 Lemma write_healthy w p : healthy w ->
@@ -47,24 +52,24 @@ Proof.
     destruct ((blen (bdrop n p) >? bw_avail w1) && negb (bw_err w1)) eqn:C2.
     + (* the rest is large: straight to the target *)
       unfold tgt_write. destruct (Z.ltb_spec (bw_budget w1) 0); [|lia]. cbn [bw_size bw_buf bw_out bw_budget bw_err].
-      unfold bdrop at 2. rewrite Nat2Z.id. rewrite (skipn_all (bdrop n p)). cbn [bw_err]. rewrite app_nil_r.
+      rewrite bdrop_all. cbn [bw_err]. rewrite app_nil_r.
       eexists. split; [reflexivity|]. unfold healthy, bw_wire. cbn [bw_budget bw_err bw_size bw_buf bw_out].
-      rewrite Buf1. repeat split; try assumption; try (change (blen []) with 0; lia).
-      * rewrite app_nil_r. unfold bw_wire in Hwire1. rewrite Buf1, app_nil_r in Hwire1. rewrite Hwire1.
-        rewrite <- app_assoc. now rewrite btake_bdrop.
-      * unfold wf in Sz1. cbn in Sz1. exact Sz1.
+      rewrite Buf1. repeat split; try assumption; try (change (blen []) with 0; lia);
+        try (unfold wf in Sz1; cbn in Sz1; exact Sz1).
+      rewrite app_nil_r. unfold bw_wire in Hwire1. rewrite Buf1, app_nil_r in Hwire1. rewrite Hwire1.
+      rewrite <- (app_assoc _ (btake n p)). now rewrite btake_bdrop.
     + rewrite He1. eexists. split; [reflexivity|]. unfold healthy, bw_wire. cbn [bw_budget bw_err bw_size bw_buf bw_out].
       rewrite Buf1. cbn [app]. rewrite He1 in C2. rewrite andb_true_r in C2. destruct (Z.gtb_spec (blen (bdrop n p)) (bw_avail w1)); [discriminate|].
-      repeat split; try assumption; try lia.
-      * unfold bw_wire in Hwire1. rewrite Buf1, app_nil_r in Hwire1. rewrite Hwire1. rewrite <- app_assoc. now rewrite btake_bdrop.
-      * unfold wf in Sz1. cbn in Sz1. exact Sz1.
+      repeat split; try assumption; try lia; try (unfold wf in Sz1; cbn in Sz1; exact Sz1);
+        try (unfold wf in Sz1; cbn in Sz1; lia).
+      unfold bw_wire in Hwire1. rewrite Buf1, app_nil_r in Hwire1. rewrite Hwire1.
+      rewrite <- (app_assoc _ (btake n p)). now rewrite btake_bdrop.
   - (* no top-up *)
     destruct ((blen p >? bw_avail w) && negb (bw_err w)) eqn:C2.
     + (* empty buffer, large write *)
-      rewrite He in C1, C2. rewrite andb_true_r in C2. rewrite C2 in C1. cbn [negb andb] in C1.
-      apply negb_false_iff in C1. apply beq_eq in C1.
+      cbn [andb] in C1. apply negb_false_iff in C1. apply beq_eq in C1.
       unfold tgt_write. destruct (Z.ltb_spec (bw_budget w) 0); [|lia]. cbn [bw_size bw_buf bw_out bw_budget bw_err].
-      unfold bdrop. rewrite Nat2Z.id, skipn_all. cbn [bw_err]. rewrite app_nil_r.
+      rewrite bdrop_all. cbn [bw_err]. rewrite app_nil_r.
       eexists. split; [reflexivity|]. unfold healthy, bw_wire. cbn [bw_budget bw_err bw_size bw_buf bw_out].
       rewrite C1. repeat split; try assumption; try (change (blen []) with 0; lia). now rewrite !app_nil_r.
     + rewrite He. eexists. split; [reflexivity|]. unfold healthy, bw_wire. cbn [bw_budget bw_err bw_size bw_buf bw_out].
@@ -122,26 +127,244 @@ Proof.
   { intros n Hn. split; [now rewrite btake_bdrop|]. split; [apply blen_btake; lia|]. split.
     - intros E. pose proof (blen_btake n d ltac:(lia)) as Hl. rewrite E in Hl. change (blen []) with 0 in Hl. lia.
     - apply length_bdrop_lt; [lia|]. intros ->. change (blen []) with 0 in Hn. lia. }
+  assert (Hdpos : d <> [] -> 1 <= blen d).
+  { destruct d as [|x d']; [congruence|]. intros _. rewrite blen_cons. pose proof (blen_nonneg d'). lia. }
+  Ltac sq := cbn [ss_data ss_script length app]; repeat split; intros; subst;
+             try congruence; try (change (blen []) with 0; lia); try lia; try assumption; try constructor;
+             try (match goal with H : Forall _ (_ :: _) |- _ => inversion H; subst; assumption end);
+             try (match goal with H : Forall data_op (OZero :: _) |- _ => inversion H; subst; contradiction end).
   destruct sc as [|o sc].
-  - destruct d as [|x d'] eqn:Ed.
-    + cbn [ss_data ss_script]. repeat split; auto; try (change (blen []) with 0; lia); try congruence; intros; try congruence; constructor.
-    + rewrite <- Ed in *. assert (Hd : 1 <= blen d) by (rewrite Ed, blen_cons; pose proof (blen_nonneg d'); lia).
-      destruct (Hstep (Z.min c (blen d)) ltac:(lia)) as (S1 & S2 & S3 & S4). cbn [ss_data ss_script].
-      repeat split; auto; try lia; try congruence; intros; try contradiction; try constructor. cbn [length]. lia.
+  - destruct d as [|x d'] eqn:Ed; [sq|]. rewrite <- Ed in *.
+    assert (Hne : d <> []) by (rewrite Ed; discriminate). specialize (Hdpos Hne).
+    destruct (Hstep (Z.min c (blen d)) ltac:(lia)) as (S1 & S2 & S3 & S4). sq.
   - inversion Hq as [|? ? Ho Hq']; subst.
     destruct o; try contradiction.
-    + destruct d as [|x d'] eqn:Ed.
-      * cbn [ss_data ss_script length]. repeat split; auto; try (change (blen []) with 0; lia); try congruence; intros; try congruence.
-        inversion H; assumption.
-      * rewrite <- Ed in *. assert (Hd : 1 <= blen d) by (rewrite Ed, blen_cons; pose proof (blen_nonneg d'); lia).
-        destruct (Hstep (Z.min (Z.max k 1) (Z.min c (blen d))) ltac:(lia)) as (S1 & S2 & S3 & S4). cbn [ss_data ss_script length].
-        repeat split; auto; try lia; try congruence; intros; try contradiction. inversion H; assumption.
-    + destruct d as [|x d'] eqn:Ed.
-      * cbn [ss_data ss_script length]. repeat split; auto; try (change (blen []) with 0; lia); try congruence; intros; try congruence.
-        inversion H; assumption.
-      * rewrite <- Ed in *. assert (Hd : 1 <= blen d) by (rewrite Ed, blen_cons; pose proof (blen_nonneg d'); lia).
-        destruct (Hstep (Z.min (Z.max k 1) (Z.min c (blen d))) ltac:(lia)) as (S1 & S2 & S3 & S4). cbn [ss_data ss_script length].
-        repeat split; auto; try lia; try congruence; intros; try contradiction. inversion H; assumption.
-    + cbn [ss_data ss_script length]. repeat split; auto; try (change (blen []) with 0; lia); try congruence; intros; try congruence.
-      inversion H as [|? ? Hbad]; contradiction.
+    + destruct d as [|x d'] eqn:Ed; [sq|]. rewrite <- Ed in *.
+      assert (Hne : d <> []) by (rewrite Ed; discriminate). specialize (Hdpos Hne).
+      destruct (Hstep (Z.min (Z.max k 1) (Z.min c (blen d))) ltac:(lia)) as (S1 & S2 & S3 & S4). sq.
+    + destruct d as [|x d'] eqn:Ed; [sq|]. rewrite <- Ed in *.
+      assert (Hne : d <> []) by (rewrite Ed; discriminate). specialize (Hdpos Hne).
+      destruct (Hstep (Z.min (Z.max k 1) (Z.min c (blen d))) ltac:(lia)) as (S1 & S2 & S3 & S4). sq.
+    + sq.
+Qed.
+
+(* ---- writeBodyChunked ---- *)
+Definition piece_ok (c : bytes) : Prop := c <> [] /\ blen c <= copyBufSize.
+
+Lemma copybuf_lt_hex : copyBufSize < 16 ^ maxHexIntChars64.
+Proof. vm_compute. reflexivity. Qed.
+Lemma zero_lt_hex : blen [] < 16 ^ maxHexIntChars64.
+Proof. vm_compute. reflexivity. Qed.
+
+Lemma enc_chunks_cons c cs : enc_chunks (c :: cs) = enc_chunk c ++ enc_chunks cs.
+Proof. unfold enc_chunks. cbn [map concat]. now rewrite app_assoc. Qed.
+
+Lemma wbc_quiet : forall fuel w s, healthy w -> Forall quiet_op (ss_script s) ->
+  (length (ss_data s) + length (ss_script s) < fuel)%nat ->
+  exists w' s' cs, wbc_loop fuel w s = (w', s', WOk) /\ healthy w' /\ bw_size w' = bw_size w /\
+    concat cs = ss_data s /\ Forall piece_ok cs /\ bw_wire w' = bw_wire w ++ enc_chunks cs /\ ss_data s' = [].
+Proof.
+  induction fuel as [|f IH]; intros w s Hw Hq Hf; [lia|]. cbn [wbc_loop].
+  pose proof (sread_quiet s copyBufSize ltac:(unfold copyBufSize; lia) Hq) as HS.
+  destruct (sread s copyBufSize) as [[p eof| |] s1]; try contradiction.
+  destruct HS as (Hd & Hq1 & Hlen & Hz & He & Hnz & _).
+  destruct p as [|x p'].
+  - destruct eof.
+    + (* EOF: the last-chunk line *)
+      destruct (writeChunk_healthy w [] Hw zero_lt_hex) as (w' & E & Hw' & Sz & Wire).
+      rewrite E. exists w', s1, []. split; [reflexivity|]. split; [exact Hw'|]. split; [exact Sz|].
+      specialize (He eq_refl eq_refl). split; [now rewrite He|]. split; [constructor|]. split; [exact Wire|].
+      rewrite He in Hd. cbn [app] in Hd. now rewrite <- Hd.
+    + destruct (Hz eq_refl eq_refl) as [Hsc Hsame].
+      destruct (IH w s1 Hw Hq1 ltac:(rewrite Hsame; lia)) as (w' & s' & cs & E & R). rewrite E.
+      exists w', s', cs. rewrite <- Hsame. split; [reflexivity|exact R].
+  - set (p := x :: p') in *. assert (Hp : p <> []) by (subst p; discriminate). specialize (Hnz Hp).
+    assert (Hlt : blen p < 16 ^ maxHexIntChars64) by (pose proof copybuf_lt_hex; lia).
+    destruct (writeChunk_healthy w p Hw Hlt) as (w1 & E1 & Hw1 & Sz1 & Wire1).
+    assert (Ematch : (let '(w', r) := writeChunk w p in match r with WOk => wbc_loop f w' s1 | _ => (w', s1, r) end) = wbc_loop f w1 s1)
+      by (rewrite E1; reflexivity).
+    subst p. rewrite Ematch.
+    destruct (IH w1 s1 Hw1 Hq1 ltac:(lia)) as (w' & s' & cs & E & Hw' & Sz & Hc & Hcs & Wire & Hfin). rewrite E.
+    exists w', s', ((x :: p') :: cs). split; [reflexivity|]. split; [exact Hw'|]. split; [congruence|].
+    split; [cbn [concat]; rewrite Hc; symmetry; exact Hd|]. split; [constructor; [split; [discriminate|exact Hlen]|exact Hcs]|].
+    split; [|exact Hfin]. rewrite Wire, Wire1, enc_chunks_cons. cbn [bw_wire]. now rewrite <- app_assoc.
+Qed.
+
+(* unknown size: whatever the read sizes, a healthy writer emits a chunked encoding of the stream's bytes *)
+Theorem writeBodyChunked_wire k w s : healthy w -> Forall quiet_op (ss_script s) ->
+  blen (ss_data s) < 16 ^ maxHexIntChars64 -> (k = KBytesReader -> ss_script s = []) ->
+  exists w' s' cs, writeBodyChunked k w s = (w', s', WOk) /\ healthy w' /\ bw_size w' = bw_size w /\
+    concat cs = ss_data s /\ Forall (fun c => c <> []) cs /\ bw_wire w' = bw_wire w ++ enc_chunks cs.
+Proof.
+  intros Hw Hq Hlen Hk. destruct k.
+  - cbn [writeBodyChunked]. destruct (wbc_quiet (sfuel s) w s Hw Hq ltac:(unfold sfuel; lia)) as (w' & s' & cs & E & Hw' & Sz & Hc & Hcs & Wire & _).
+    exists w', s', cs. split; [exact E|]. split; [exact Hw'|]. split; [exact Sz|]. split; [exact Hc|]. split; [|exact Wire].
+    eapply Forall_impl; [|exact Hcs]. intros c [Hc1 _]. exact Hc1.
+  - cbn [writeBodyChunked]. destruct (ss_data s) as [|x d] eqn:Ed.
+    + destruct (writeChunk_healthy w [] Hw zero_lt_hex) as (w' & E & Hw' & Sz & Wire).
+      rewrite E. exists w', (mkSS [] (ss_script s)), []. split; [reflexivity|]. split; [exact Hw'|]. split; [exact Sz|].
+      split; [reflexivity|]. split; [constructor|exact Wire].
+    + rewrite <- Ed in *. assert (Hne : ss_data s <> []) by (rewrite Ed; discriminate).
+      destruct (writeChunk_healthy w (ss_data s) Hw Hlen) as (w1 & E1 & Hw1 & Sz1 & Wire1).
+      destruct (writeChunk_healthy w1 [] Hw1 zero_lt_hex) as (w2 & E2 & Hw2 & Sz2 & Wire2).
+      rewrite Ed in E1 |- *. rewrite E1, E2. rewrite <- Ed in *.
+      exists w2, (mkSS [] (ss_script s)), [ss_data s]. split; [reflexivity|]. split; [exact Hw2|]. split; [congruence|].
+      split; [cbn; apply app_nil_r|]. split; [constructor; [exact Hne|constructor]|].
+      rewrite Wire2, Wire1. rewrite Ed. unfold enc_chunks. cbn [map concat]. rewrite app_nil_r, <- app_assoc. reflexivity.
+Qed.
+
+(* ---- writeBodyFixedSize ---- *)
+Lemma sread_eof_done s c p s' : sread s c = (RdOk p true, s') -> ss_data s' = [].
+Proof.
+  destruct s as [d sc]. unfold sread. cbn [ss_data ss_script].
+  destruct sc as [|o sc].
+  - destruct d; [intros [= _ <-]; reflexivity|discriminate].
+  - destruct o; try discriminate.
+    + destruct d; [intros [= _ <-]; reflexivity|discriminate].
+    + destruct d as [|x d'] eqn:Ed; [intros [= _ <-]; reflexivity|]. rewrite <- Ed.
+      intros [= _ He <-]. cbn [ss_data]. apply Z.eqb_eq in He. rewrite <- He. apply bdrop_all.
+Qed.
+
+Lemma healthy_avail w : healthy w -> 0 <= bw_avail w.
+Proof. intros (_ & _ & _ & H). unfold bw_avail. lia. Qed.
+
+Lemma rf_data : forall fuel w s n, healthy w -> Forall data_op (ss_script s) ->
+  (length (ss_data s) + length (ss_script s) + 1 < fuel)%nat ->
+  exists w' s', rf_loop fuel w s (Some (blen (ss_data s))) n 0 = (w', s', n + blen (ss_data s), WOk) /\
+    healthy w' /\ bw_size w' = bw_size w /\ bw_wire w' = bw_wire w ++ ss_data s /\ ss_data s' = [] /\
+    Forall data_op (ss_script s').
+Proof.
+  induction fuel as [|f IH]; intros w s n Hw Hq Hf; [lia|]. cbn [rf_loop].
+  (* the flush that makes room *)
+  assert (Hroom : exists w0, (if bw_avail w =? 0 then bw_flush w else (w, true)) = (w0, true) /\ healthy w0 /\
+                             bw_size w0 = bw_size w /\ bw_wire w0 = bw_wire w /\ 0 < bw_avail w0).
+  { destruct (Z.eqb_spec (bw_avail w) 0) as [Hz|Hnz].
+    - destruct (flush_healthy w Hw) as (w0 & E & Hw0 & Wire & Buf & Sz). exists w0. rewrite E.
+      repeat split; try apply Hw0; try assumption. unfold bw_avail. rewrite Buf, Sz. change (blen []) with 0. destruct Hw as (_ & _ & Hs & _). lia.
+    - exists w. pose proof (healthy_avail w Hw). repeat split; try apply Hw; lia. }
+  destruct Hroom as (w0 & E0 & Hw0 & Sz0 & Wire0 & Hav). rewrite E0. cbn [negb].
+  assert (Hquiet : Forall quiet_op (ss_script s)) by (eapply Forall_impl; [|exact Hq]; intros o; destruct o; cbn; tauto).
+  unfold lread. destruct (Z.leb_spec (blen (ss_data s)) 0) as [Hemp|Hne].
+  - (* the limit is used up: io.EOF without reading the stream *)
+    assert (Hd : ss_data s = []) by (destruct (ss_data s) as [|x d]; [reflexivity|rewrite blen_cons in Hemp; pose proof (blen_nonneg d); lia]).
+    rewrite app_nil_r. assert (Hw0' : mkBW (bw_size w0) (bw_buf w0) (bw_out w0) (bw_budget w0) (bw_err w0) = w0) by (destruct w0; reflexivity).
+    rewrite Hw0'. destruct (Z.eqb_spec (bw_avail w0) 0); [lia|].
+    exists w0, s. rewrite Hd. change (blen []) with 0. rewrite Z.add_0_r, app_nil_r.
+    split; [reflexivity|]. split; [exact Hw0|]. split; [exact Sz0|]. split; [exact Wire0|]. split; [reflexivity|exact Hq].
+  - set (c := Z.min (bw_avail w0) (blen (ss_data s))). assert (Hc : 0 < c) by (subst c; lia).
+    pose proof (sread_quiet s c Hc Hquiet) as HS. pose proof (sread_eof_done s c) as HE.
+    destruct (sread s c) as [[p eof| |] s1]; try contradiction.
+    destruct HS as (Hd & Hq1 & Hlen & _ & _ & Hnz & Hdata). destruct (Hdata Hq) as [Hq1' Hpne].
+    assert (Hsne : ss_data s <> []) by (intros E; rewrite E in Hne; change (blen []) with 0 in Hne; lia).
+    specialize (Hpne Hsne). specialize (Hnz Hpne).
+    destruct p as [|x p']; [congruence|]. set (p := x :: p') in *.
+    assert (Hbl : blen (ss_data s) = blen p + blen (ss_data s1)) by (rewrite Hd at 1; apply blen_app).
+    set (w1 := mkBW (bw_size w0) (bw_buf w0 ++ p) (bw_out w0) (bw_budget w0) (bw_err w0)).
+    assert (Hw1 : healthy w1).
+    { destruct Hw0 as (A & B & C & D). unfold healthy, w1. cbn [bw_budget bw_err bw_size bw_buf].
+      repeat split; try assumption. rewrite blen_app. unfold bw_avail in *. lia. }
+    assert (Wire1 : bw_wire w1 = bw_wire w ++ p).
+    { unfold bw_wire, w1. cbn [bw_out bw_buf]. rewrite app_assoc. unfold bw_wire in Wire0. now rewrite Wire0. }
+    destruct eof.
+    + specialize (HE p s1 eq_refl). rewrite HE in Hbl, Hd. change (blen []) with 0 in Hbl. rewrite app_nil_r in Hd.
+      destruct (Z.eqb_spec (bw_avail w1) 0).
+      * destruct (flush_healthy w1 Hw1) as (w2 & E2 & Hw2 & Wire2 & _ & Sz2). rewrite E2.
+        exists w2, s1. split; [f_equal; f_equal; lia|]. split; [exact Hw2|]. split; [rewrite Sz2; exact Sz0|].
+        split; [rewrite Wire2, Wire1, Hd; reflexivity|]. split; [exact HE|exact Hq1'].
+      * exists w1, s1. split; [f_equal; f_equal; lia|]. split; [exact Hw1|]. split; [exact Sz0|].
+        split; [rewrite Wire1, Hd; reflexivity|]. split; [exact HE|exact Hq1'].
+    + replace (blen (ss_data s) - blen p) with (blen (ss_data s1)) by lia.
+      destruct (IH w1 s1 (n + blen p) Hw1 Hq1' ltac:(lia)) as (w' & s' & E & Hw' & Sz & Wire & Hfin & Hq').
+      rewrite E. exists w', s'. split; [f_equal; f_equal; lia|]. split; [exact Hw'|]. split; [rewrite Sz; exact Sz0|].
+      split; [rewrite Wire, Wire1, Hd, <- app_assoc; reflexivity|]. split; [exact Hfin|exact Hq'].
+Qed.
+
+(* declared size = what the stream yields: exactly the stream's bytes reach the wire *)
+Theorem writeBodyFixedSize_wire k w s : healthy w -> Forall data_op (ss_script s) -> (k = KBytesReader -> ss_script s = []) ->
+  exists w' s', writeBodyFixedSize k w s (blen (ss_data s)) = (w', s', WOk) /\ healthy w' /\ bw_size w' = bw_size w /\
+                bw_wire w' = bw_wire w ++ ss_data s.
+Proof.
+  intros Hw Hq Hk. unfold writeBodyFixedSize. destruct k.
+  - cbn [copyBodyStream]. unfold bw_readfrom. pose proof Hw as (_ & B & _). rewrite B.
+    destruct (rf_data (S (sfuel s)) w s 0 Hw Hq ltac:(unfold sfuel; lia)) as (w' & s' & E & Hw' & Sz & Wire & Hfin & Hq').
+    rewrite E. cbn [Z.add]. rewrite Z.eqb_refl. cbn [negb].
+    assert (Hquiet : Forall quiet_op (ss_script s')) by (eapply Forall_impl; [|exact Hq']; intros o; destruct o; cbn; tauto).
+    pose proof (sread_quiet s' 1 ltac:(lia) Hquiet) as HS.
+    destruct (sread s' 1) as [[p eof| |] s2]; try contradiction.
+    destruct HS as (Hd & _). rewrite Hfin in Hd. destruct p as [|x p']; [|discriminate].
+    exists w', s2. split; [reflexivity|]. split; [exact Hw'|]. split; [exact Sz|exact Wire].
+  - cbn [copyBodyStream]. destruct (ss_data s) as [|x d] eqn:Ed.
+    + exists w, (mkSS [] (ss_script s)). change (blen []) with 0. cbn. split; [reflexivity|]. split; [exact Hw|]. split; [reflexivity|].
+      now rewrite app_nil_r.
+    + rewrite <- Ed. destruct (write_healthy w (ss_data s) Hw) as (w1 & E1 & Hw1 & Wire1 & Sz1). rewrite E1.
+      rewrite Z.eqb_refl. cbn [negb]. exists w1, (mkSS [] (ss_script s)). split; [reflexivity|]. split; [exact Hw1|]. split; [exact Sz1|exact Wire1].
+Qed.
+
+(* ---- Response.writeBodyStream / Request.writeBodyStream on a healthy connection ---- *)
+Lemma bw_new_healthy size : 0 < size -> healthy (bw_new size (-1)).
+Proof. intros H. unfold healthy, bw_new. cbn. change (blen []) with 0. lia. Qed.
+
+Theorem wire_fixed k size hdr trailer flush s : 0 < size -> Forall data_op (ss_script s) ->
+  (k = KBytesReader -> ss_script s = []) ->
+  let out := respWriteBodyStream k hdr trailer (blen (ss_data s)) true flush (bw_new size (-1)) s in
+  ws_res out = WOk /\ ws_closed out = true /\ bw_wire (ws_w out) = hdr ++ ss_data s.
+Proof.
+  intros Hs Hq Hk. unfold respWriteBodyStream.
+  destruct (write_healthy _ hdr (bw_new_healthy size Hs)) as (w1 & E1 & Hw1 & Wire1 & _). rewrite E1. cbn [negb].
+  assert (Hfl : exists w2, (if flush then bw_flush w1 else (w1, true)) = (w2, true) /\ healthy w2 /\ bw_wire w2 = hdr).
+  { destruct flush.
+    - destruct (flush_healthy w1 Hw1) as (w2 & E2 & Hw2 & Wire2 & _). exists w2. split; [exact E2|]. split; [exact Hw2|]. now rewrite Wire2, Wire1.
+    - exists w1. split; [reflexivity|]. split; [exact Hw1|exact Wire1]. }
+  destruct Hfl as (w2 & E2 & Hw2 & Wire2). rewrite E2. cbn [negb].
+  pose proof (blen_nonneg (ss_data s)). destruct (Z.geb_spec (blen (ss_data s)) 0); [|lia].
+  destruct (writeBodyFixedSize_wire k w2 s Hw2 Hq Hk) as (w3 & s3 & E3 & Hw3 & _ & Wire3). rewrite E3.
+  cbn [ws_res ws_closed ws_w]. repeat split. now rewrite Wire3, Wire2.
+Qed.
+
+Theorem wire_chunked k size hdr trailer cl flush s : 0 < size -> cl < 0 -> Forall quiet_op (ss_script s) ->
+  blen (ss_data s) < 16 ^ maxHexIntChars64 -> (k = KBytesReader -> ss_script s = []) ->
+  let out := respWriteBodyStream k hdr trailer cl true flush (bw_new size (-1)) s in
+  ws_res out = WOk /\ ws_closed out = true /\
+  exists cs, concat cs = ss_data s /\ Forall (fun c => c <> []) cs /\ bw_wire (ws_w out) = hdr ++ enc_chunks cs ++ trailer.
+Proof.
+  intros Hs Hcl Hq Hlen Hk. unfold respWriteBodyStream.
+  destruct (write_healthy _ hdr (bw_new_healthy size Hs)) as (w1 & E1 & Hw1 & Wire1 & _). rewrite E1. cbn [negb].
+  assert (Hfl : exists w2, (if flush then bw_flush w1 else (w1, true)) = (w2, true) /\ healthy w2 /\ bw_wire w2 = hdr).
+  { destruct flush.
+    - destruct (flush_healthy w1 Hw1) as (w2 & E2 & Hw2 & Wire2 & _). exists w2. split; [exact E2|]. split; [exact Hw2|]. now rewrite Wire2, Wire1.
+    - exists w1. split; [reflexivity|]. split; [exact Hw1|exact Wire1]. }
+  destruct Hfl as (w2 & E2 & Hw2 & Wire2). rewrite E2. cbn [negb].
+  destruct (Z.geb_spec cl 0); [lia|].
+  destruct (writeBodyChunked_wire k w2 s Hw2 Hq Hlen Hk) as (w3 & s3 & cs & E3 & Hw3 & _ & Hc & Hne & Wire3). rewrite E3.
+  destruct (write_healthy w3 trailer Hw3) as (w4 & E4 & Hw4 & Wire4 & _). rewrite E4.
+  cbn [ws_res ws_closed ws_w]. split; [reflexivity|]. split; [reflexivity|].
+  exists cs. split; [exact Hc|]. split; [exact Hne|]. rewrite Wire4, Wire3, Wire2. now rewrite <- app_assoc.
+Qed.
+
+(* what the peer then decodes *)
+Lemma chunks_ok_of_data cs data : concat cs = data -> Forall (fun c => c <> []) cs -> wf_bytes data ->
+  blen data < 16 ^ maxHexIntChars64 -> Forall chunk_ok cs.
+Proof.
+  intros <-. induction cs as [|c cs IH]; intros Hne Hwf Hlen; [constructor|].
+  inversion Hne as [|? ? Hc Hne']; subst. cbn [concat] in *. apply wf_app in Hwf as [Hw1 Hw2].
+  rewrite blen_app in Hlen. pose proof (blen_nonneg c). pose proof (blen_nonneg (concat cs)).
+  constructor; [repeat split; [exact Hc|exact Hw1|lia]|]. apply IH; [exact Hne'|exact Hw2|lia].
+Qed.
+
+Theorem chunked_stream_roundtrip k size hdr cl flush s rest parseTr : 0 < size -> cl < 0 ->
+  Forall quiet_op (ss_script s) -> (k = KBytesReader -> ss_script s = []) ->
+  wf_bytes (ss_data s) -> wf_bytes rest -> blen (ss_data s) + 2 <= maxAlloc ->
+  let out := respWriteBodyStream k hdr strCRLF cl true flush (bw_new size (-1)) s in
+  exists wire_body pk, bw_wire (ws_w out) = hdr ++ wire_body /\
+    respReadBody parseTr (-1) 0 0 [] (wire_body ++ rest) = BOk (ss_data s) rest pk /\
+    reqReadBody parseTr (-1) 0 (wire_body ++ rest) = BOk (ss_data s) rest pk.
+Proof.
+  intros Hs Hcl Hq Hk Hwf Hr Ha.
+  assert (Hlen : blen (ss_data s) < 16 ^ maxHexIntChars64).
+  { assert (maxAlloc < 16 ^ maxHexIntChars64) by (vm_compute; reflexivity). lia. }
+  destruct (wire_chunked k size hdr strCRLF cl flush s Hs Hcl Hq Hlen Hk) as (_ & _ & cs & Hc & Hne & Wire).
+  cbv zeta. exists (enc_chunks cs ++ strCRLF).
+  pose proof (chunks_ok_of_data cs _ Hc Hne Hwf Hlen) as Hok.
+  destruct (chunked_message_codec parseTr cs 0 rest Hok Hr ltac:(left; lia) ltac:(rewrite Hc; exact Ha)) as (pk & E1 & E2).
+  exists pk. unfold enc_chunked_message in *. rewrite Hc in *. split; [exact Wire|]. split; [exact E2|exact E1].
 Qed.
